@@ -5,17 +5,27 @@ Theorems about `Paths.pathsFrom / simplePaths / columnLineage` (model of `Column
 core/holders.py:15‑52, on top of `networkx.all_simple_paths`) for EVERY graph, by induction on the fuel / on the path
 (helper lemmas: `Proofs/PathLemmas.lean`).  The model is the FIXED code (`elif len(path) > 1`, commit 8290e64 — D12).
 
+The projection onto table lineage is a theorem in two layers (section "projection" at the end of this file):
+  * fold level, EVERY history of holders: if every statement holder projects (`Projection.HolderOK`: a column edge between
+    dataset-owned columns goes from a column of a table the statement reads to a column of the table it writes; not a RENAME),
+    the combined graph of `_build_digraph` has the table edge owner(source) → owner(target) under every such column edge
+    (`fold_projects`), hence every hop of every reported path lies over an edge of the table graph (`path_hops_project_partial`);
+  * statement level: the holders `analyze` builds for the flat write fragment of `Proofs/ColumnsExact.lean` with every qualifier
+    in scope project (`flat_holder_projects_partial`), and so does a whole script of them run by `Runner.eval`
+    (`script_projects_flat_partial`).
 What is NOT a theorem here and is checked on every implementation result by `harness/monitor.py` instead:
-  * the projection onto table lineage (owner(last) ∈ target ∪ intermediate, owners of resolved sources ∈ source ∪ intermediate,
-    the table graph connects them): it depends on the extractors (`Model/Walk.lean`), for which the design's
-    `column_edge_projects : Frag02 s → …` is not proved; deviation D2 (scalar subquery in the select list) shows it fails
-    outside that fragment;
+  * the projection for statements outside that fragment (nested queries, set operations, UPDATE / MERGE, a metadata provider),
+    after a RENAME (finding D33), and for histories that leave unresolved columns to the tail of `_build_digraph` (finding D11);
+    deviation D2 (scalar subquery in the select list) and `dev_unscoped_qualifier` show where it fails;
   * "every node is retrievable by equality and hash": a statement about Python object identity and mutation; the immutable
     model can only say that the owner is part of the node key and never changes (`resolved_single_owner`, `KeyPay`).
 -/
 import SqlLineage.Proofs.PathLemmas
 import SqlLineage.Proofs.BuildLemmas
 import SqlLineage.Model.Assemble
+import SqlLineage.Model.Runner
+import SqlLineage.Proofs.Projection
+import SqlLineage.Proofs.ProjectionFlat
 
 namespace SqlLineage.Props.C06
 open SqlLineage Graph Paths Holder
@@ -418,5 +428,172 @@ example : ∃ g, Assemble.build Assemble.Prov.none [hEx1, hEx2] = .ok g ∧ WF g
     rw [hg] at this; simpa using this
 -- a graph where the search on the full graph matters: the table node has HAS_COLUMN edges into the columns, yet no path leaves the columns
 example : (gEx.outEdges (.ds (tbl "mid"))).length = 2 := by decide
+
+
+/-! ## projection onto table lineage -/
+
+section projection
+open SqlLineage.Projection SqlLineage.ProjectionFlat SqlLineage.ColumnsExact SqlLineage.Walk SqlLineage.Ast
+
+/-- **fold level, every history**: holders that project are folded into a combined graph that projects (any number of read/write
+    and DROP statements, in any order; `ord` is the enumeration order of rename pairs, irrelevant here) -/
+theorem fold_projects (ord : List (Node × Node) → List (Node × Node)) (hs : List LGraph) (g : LGraph)
+    (hall : ∀ h ∈ hs, HolderOK h) (hf : Assemble.foldAll ord Graph.empty hs = .ok g) : ProjG g :=
+  foldAll_proj ord hs _ g projG_empty hall hf
+
+/-- the table edge under a column edge is an edge of the TABLE view (`table_lineage_graph`) -/
+theorem projected_edge_in_table_graph (g : LGraph) (hg : ProjG g) (u v : Node) (he : (u, v) ∈ g.edges) (d T : DS)
+    (hd : DsEdge u v d T) : (Node.ds d, Node.ds T) ∈ (Assemble.tableGraph g).edges := by
+  unfold Assemble.tableGraph
+  rw [Graph.mem_edges_subgraph]
+  refine ⟨hg u v he d T hd, ?_⟩
+  obtain ⟨_, _, h1, h2⟩ := hd
+  simp [Node.isDataset, h1, h2]
+
+/-- **every hop of every reported path** lies over an edge of the table graph, in a combined graph that projects: the owners of
+    consecutive columns of a path are joined in `table_lineage_graph`, so the table graph connects the first resolved column's
+    table to the last column's table along the path -/
+theorem path_hops_project_partial (g : LGraph) (hg : ProjG g) (p : List Node) (hp : p ∈ columnLineage g)
+    (l : List Node) (a b : Node) (r : List Node) (hsplit : p = l ++ a :: b :: r) (d T : DS) (hd : DsEdge a b d T) :
+    (Node.ds d, Node.ds T) ∈ (Assemble.tableGraph g).edges := by
+  have hc := path_is_chain g p hp
+  rw [hsplit] at hc
+  exact projected_edge_in_table_graph g hg a b (IsChain.edge_of_append l a b r hc) d T hd
+
+/-- **statement level**: the holder of a flat write statement whose qualifiers are all in scope projects -/
+theorem flat_holder_projects_partial (env : Env) (silent : Bool) (s : Stmt) (hp : env.prov.truthy = false)
+    (hs : fragStmt env s = true) (hsc : stmtScoped env s = true) :
+    ∃ g, analyze env silent s = .ok g ∧ HolderOK g :=
+  analyze_holderOK env silent s hp hs hsc
+
+/-- the environment `Runner.analyzeAll` analyses a statement in -/
+def envOf (c : Runner.Config) (p : Runner.Provider) : Env := ⟨c.cfgDefault, c.importDefault, p.view, c.ro, c.revStar⟩
+
+theorem register_base (p : Runner.Provider) (h : LGraph) : (Runner.register p h).base = p.base := by
+  unfold Runner.register
+  split
+  · simp only
+    split <;> rfl
+  · rfl
+
+theorem analyzeAll_holderOK (c : Runner.Config) : ∀ (ss : List Stmt) (p p' : Runner.Provider) (hs : List LGraph),
+    p.base = [] →
+    (∀ s ∈ ss, fragStmt (envOf c ⟨[], []⟩) s = true ∧ stmtScoped (envOf c ⟨[], []⟩) s = true) →
+    Runner.analyzeAll c p ss = .ok (p', hs) → p'.base = [] ∧ ∀ h ∈ hs, HolderOK h
+  | [], p, p', hs, hb, _, he => by
+    simp only [Runner.analyzeAll, Except.ok.injEq, Prod.mk.injEq] at he
+    obtain ⟨rfl, rfl⟩ := he
+    exact ⟨hb, by simp⟩
+  | s :: r, p, p', hs, hb, hfrag, he => by
+    have hpt : (envOf c p).prov.truthy = false := by simp [envOf, Runner.Provider.view, hb]
+    have hsw : envOf c p = { envOf c ⟨[], []⟩ with prov := p.view } := rfl
+    obtain ⟨g, hg, hok⟩ := analyze_holderOK (envOf c p) c.silent s hpt
+      (by rw [hsw, fragStmt_prov]; exact (hfrag s (by simp)).1) (by rw [hsw, stmtScoped_prov]; exact (hfrag s (by simp)).2)
+    unfold envOf at hg
+    simp only [Runner.analyzeAll, hg] at he
+    cases hrec : Runner.analyzeAll c (Runner.register p g) r with
+    | error e => rw [hrec] at he; cases he
+    | ok res =>
+      obtain ⟨p2, hs2⟩ := res
+      rw [hrec] at he
+      simp only [Except.ok.injEq, Prod.mk.injEq] at he
+      obtain ⟨rfl, rfl⟩ := he
+      obtain ⟨hb2, hall⟩ := analyzeAll_holderOK c r _ _ _ (by rw [register_base]; exact hb)
+        (fun x hx => hfrag x (by simp [hx])) hrec
+      refine ⟨hb2, ?_⟩
+      intro h hh
+      rcases List.mem_cons.mp hh with rfl | hh
+      · exact hok
+      · exact hall h hh
+
+/-- **script level, end to end**: a script of any number of flat write statements (INSERT without column list / CTAS / CREATE VIEW
+    over one SELECT block of base tables, every qualifier in scope), run by the model of `LineageRunner._eval` without metadata,
+    yields a combined graph in which every column edge between table-owned columns lies over the table edge of its owners —
+    provided the history leaves no unresolved column edge to the tail of `_build_digraph` (with shared unresolved columns the
+    clause fails on the unchanged code: finding D11).
+
+    FULL STATEMENT (not proved): the same for every statement of `Frag02`, with a provider, and through the unresolved-column
+    tail for histories without shared unresolved columns. -/
+theorem script_projects_flat_partial (c : Runner.Config) (ss : List Stmt) (g : LGraph) (hs : List LGraph)
+    (hfrag : ∀ s ∈ ss, fragStmt (envOf c ⟨[], []⟩) s = true ∧ stmtScoped (envOf c ⟨[], []⟩) s = true)
+    (hun : ∀ gf, Assemble.foldAll id Graph.empty hs = .ok gf → Assemble.unresolved (Assemble.tagSelfloops gf) = [])
+    (he : Runner.eval c [] ss = .ok (g, hs)) : ProjG g := by
+  unfold Runner.eval at he
+  cases ha : Runner.analyzeAll c ⟨[], []⟩ ss with
+  | error e => rw [ha] at he; cases he
+  | ok res =>
+    obtain ⟨p', hs'⟩ := res
+    rw [ha] at he
+    simp only at he
+    cases hb : Assemble.build p'.asmView hs' with
+    | error e => rw [hb] at he; cases he
+    | ok g' =>
+      rw [hb] at he
+      simp only [Except.ok.injEq, Prod.mk.injEq] at he
+      obtain ⟨rfl, rfl⟩ := he
+      obtain ⟨_, hall⟩ := analyzeAll_holderOK c ss _ _ _ rfl hfrag ha
+      cases hf : Assemble.foldAll id Graph.empty hs' with
+      | error e =>
+        unfold Assemble.build Assemble.buildWith at hb
+        rw [hf] at hb; cases hb
+      | ok gf => exact build_proj_partial id p'.asmView hs' g' gf hall hf (hun gf hf) hb
+
+
+/-! #### non‑vacuity and the deviation witness -/
+
+/-- `create table mid as select x.a, x.b as c from src x` -/
+def exMid : Stmt :=
+  .ctas ["mid"] false false
+    (.select false [.mk (.col ["x"] "a") none false, .mk (.col ["x"] "b") (some "c") true]
+      [.mk (.table ["src"] (some "x") false) []] none [] none) false
+
+/-- `insert into tgt select mid.a, o.k from mid join other o on mid.a = o.k` -/
+def exTgt : Stmt :=
+  .insert .insertInto false ["tgt"] none
+    (.select false [.mk (.col ["mid"] "a") none false, .mk (.col ["o"] "k") none false]
+      [.mk (.table ["mid"] none false) [.mk "join" (.table ["other"] (some "o") false)
+        (some (.bin "=" (.col ["mid"] "a") (.col ["o"] "k"))) []]] none [] none) false
+
+/-- `insert into t select foo.x from bar`: the qualifier `foo` names no relation of the FROM clause -/
+def exUnscoped : Stmt :=
+  .insert .insertInto false ["t"] none
+    (.select false [.mk (.col ["foo"] "x") none false] [.mk (.table ["bar"] none false) []] none [] none) false
+
+example : fragStmt {} exMid = true ∧ stmtScoped {} exMid = true := by decide +kernel
+example : fragStmt {} exTgt = true ∧ stmtScoped {} exTgt = true := by decide +kernel
+example : ∃ g, analyze {} false exTgt = .ok g ∧ HolderOK g :=
+  flat_holder_projects_partial {} false exTgt rfl (by decide +kernel) (by decide +kernel)
+
+/-- the hypotheses of `script_projects_flat_partial` hold for the script `[exMid; exTgt]` (no unresolved column edge is left), and
+    the conclusion is not empty: the combined graph has the column edge `mid.a → tgt.a` and, under it, the table edge `mid → tgt`;
+    likewise `src.a → mid.a` over `src → mid` -/
+example : (match Runner.eval {} [] [exMid, exTgt] with
+    | .ok (g, hs) =>
+      (match Assemble.foldAll id Graph.empty hs with
+        | .ok gf => decide (Assemble.unresolved (Assemble.tagSelfloops gf) = [])
+        | .error _ => false) &&
+      g.hasEdge (.col "<default>.mid.a" (some (tbl "mid"))) (.col "<default>.tgt.a" (some (tbl "tgt"))) &&
+      g.hasEdge (.ds (tbl "mid")) (.ds (tbl "tgt")) &&
+      g.hasEdge (.col "<default>.src.a" (some (tbl "src"))) (.col "<default>.mid.a" (some (tbl "mid"))) &&
+      g.hasEdge (.ds (tbl "src")) (.ds (tbl "mid")) &&
+      g.hasEdge (.ds (tbl "other")) (.ds (tbl "tgt"))
+    | .error _ => false) = true := by decide +kernel
+
+example : ∀ s ∈ [exMid, exTgt], fragStmt (envOf {} ⟨[], []⟩) s = true ∧ stmtScoped (envOf {} ⟨[], []⟩) s = true := by
+  intro s hs
+  simp only [List.mem_cons, List.mem_nil_iff, or_false] at hs
+  rcases hs with rfl | rfl <;> decide +kernel
+
+/-- **deviation witness** (the root cause of findings D32 and K6, on a statement no engine accepts): without `stmtScoped` the
+    statement‑level theorem fails — the model, like the code (`Column.to_source_columns` falls back to `Table(qualifier)`,
+    models.py:236), reports the column edge `<default>.foo.x → <default>.t.x` although the statement does not read a table `foo` -/
+theorem dev_unscoped_qualifier :
+    fragStmt {} exUnscoped = true ∧ stmtScoped {} exUnscoped = false ∧
+    (match analyze {} false exUnscoped with
+      | .ok g => g.hasEdge (.col "<default>.foo.x" (some (tbl "foo"))) (.col "<default>.t.x" (some (tbl "t"))) &&
+          !(Assemble.stmtRead g).contains (.ds (tbl "foo")) && (Assemble.stmtRead g).contains (.ds (tbl "bar"))
+      | .error _ => false) = true := by decide +kernel
+
+end projection
 
 end SqlLineage.Props.C06
